@@ -886,6 +886,28 @@ def main(out_path):
         L.append(f"Definition POLICY_KEY_USES_FULL_VERSION : bool := {'true' if full else 'false'}.")
         L.append("")
 
+    with section(L, "certify: the criteria test of try_collapse_with_prior"):
+        pass
+        tc = fn_body(fmt, "try_collapse_with_prior")
+        eq = tri(bool(re.search(r"if\s+other\.criteria\s*!=\s*self\.criteria\s*\{\s*return\s+None\s*;?\s*\}", tc)) or
+                 bool(re.search(r"if\s+self\.criteria\s*!=\s*other\.criteria\s*\{\s*return\s+None\s*;?\s*\}", tc)),
+                 "criteria" not in tc,
+                 "criteria comparison of try_collapse_with_prior")
+        L.append("(* format.rs try_collapse_with_prior: `if other.criteria != self.criteria { return None; }` — the two WRITTEN lists must be equal *)")
+        L.append(f"Definition COLLAPSE_REQUIRES_EQUAL_CRITERIA_LISTS : bool := {'true' if eq else 'false'}.")
+        L.append("")
+
+    with section(L, "imports_lock_outdated: what is compared between config.toml and imports.lock"):
+        pass
+        lo = fn_body(storage, "imports_lock_outdated")
+        keys = tri(bool(re.search(r"self\.config\.imports\.keys\(\)\s*\.ne\(\s*self\.imports\.audits\.keys\(\)\s*\)", lo)) or
+                   bool(re.search(r"self\.imports\.audits\.keys\(\)\s*\.ne\(\s*self\.config\.imports\.keys\(\)\s*\)", lo)),
+                   bool(re.search(r"\.len\(\)\s*!=\s*self\.[a-z_.]+\.len\(\)", lo)) and ".keys()" not in lo,
+                   "first comparison of imports_lock_outdated")
+        L.append("(* storage.rs imports_lock_outdated: `self.config.imports.keys().ne(self.imports.audits.keys())` — the import NAMES are compared *)")
+        L.append(f"Definition LOCK_SYNC_COMPARES_KEYS : bool := {'true' if keys else 'false'}.")
+        L.append("")
+
     with section(L, "storage constants"):
         pass
         m = re.search(r"let\s+max_end_date\s*=\s*today\s*\+\s*chrono::Months::new\((\d+)\)", storage)
